@@ -53,8 +53,8 @@ class C02(Check):
     rule = (
         "seeded inputs with unique record ids from sources {DataFrame, HDF5, FITS (big-endian), Parquet with row groups "
         "smaller/equal/larger than the chunk and a single group, BoxRandoms} x column sets (weights/redshifts/patch ids in "
-        "every combination) x dtypes {f8, f4, i8/i4 indices} x degrees/radian x lengths {1, 2, c-1, c, c+1, 2c-1, 2c, 2c+1, "
-        "prime} for chunk sizes c in {1, 2, 3, 7, 100, n, > n} x patch modes {centres, index column, generated centres}; "
+        "every combination) x dtypes {f8, f4, i8/i4 indices, unsigned 16/32-bit weight and index columns} x degrees/radian x lengths {1, 2, c-1, c, c+1, 2c-1, 2c, 2c+1, "
+        "prime} for chunk sizes c in {1, 2, 3, 7, 100, n, > n} x patch modes {centres, index column, generated centres}, plus points placed 3e-9..1e-6 rad from a patch boundary; "
         "every creation is matched record by record against the input, reopened, and re-run under other (chunk size, "
         "buffer size via write_patches, workers 2/3/4/8 with seeded delays before each worker's queue put, progress) "
         "settings whose per-patch multisets must be identical. non-trivial = >= 2 chunks or >= 2 patches and all records "
@@ -82,6 +82,16 @@ class C02(Check):
                     k += 1
                     yield dict(seed=seed * 7919 + k, source=source, mode=mode, weights=True, redshifts=bool(k % 2),
                                dtype="f8", degrees=True, n=n, chunk=c, parallel=True, progress=False, group="smaller")
+        for src_ in ("fits", "hdf5", "parquet", "dataframe"):
+            for dt in ("u2", "u4"):
+                for mode in ("centres", "index"):
+                    k += 1
+                    yield dict(seed=seed * 7919 + 900 + k, source=src_, mode=mode, weights=True, redshifts=bool(k % 2), dtype=dt,
+                               degrees=True, n=150, chunk=40, parallel=False, progress=False, group="smaller", border=False)
+        for src_ in SOURCES:
+            k += 1
+            yield dict(seed=seed * 7919 + 950 + k, source=src_, mode="centres", weights=True, redshifts=False, dtype="f8",
+                       degrees=bool(k % 2), n=300, chunk=64, parallel=bool(k % 2), progress=False, group="equal", border=True)
         for i in range(n_cases):
             c = int(rng.choice([1, 2, 3, 7, 100]))
             n = int(rng.choice(lengths_for(c))) if rng.random() < 0.7 else int(rng.integers(1, 400))
@@ -93,7 +103,8 @@ class C02(Check):
                 seed=seed * 100003 + i, source=SOURCES[i % 4] if i % 9 != 8 else "random",
                 mode=str(rng.choice(["centres", "index", "generate"], p=[0.55, 0.35, 0.10])),
                 weights=bool(rng.random() < 0.6), redshifts=bool(rng.random() < 0.6),
-                dtype=str(rng.choice(["f8", "f8", "f4"])), degrees=bool(rng.random() < 0.7),
+                dtype=str(rng.choice(["f8", "f8", "f4", "u2", "u4"])), degrees=bool(rng.random() < 0.7),
+                border=bool(rng.random() < 0.3),
                 n=n, chunk=chunk, parallel=bool(i % 4 == 0), progress=bool(rng.random() < 0.2),
                 group=str(rng.choice(["smaller", "equal", "larger", "one"])),
             )
@@ -135,6 +146,22 @@ class C02(Check):
         pid_true = None
         cols = sources.make_table(rng, n, weights=case["weights"], redshifts=case["redshifts"], degrees=case["degrees"],
                                   dtype=case["dtype"], centres_xyz=centres, spread=np.deg2rad(1.5))
+        if case.get("border") and len(centres) >= 2 and mode != "generate":
+            # hostile class: a third of the points sit 3e-9 .. 1e-6 rad from the bisector of two centres
+            c1, c2 = centres[0], centres[1]
+            nrm = (c1 - c2) / np.linalg.norm(c1 - c2)
+            mid = (c1 + c2) / np.linalg.norm(c1 + c2)
+            axis = np.cross(nrm, mid)
+            axis /= np.linalg.norm(axis)
+            m = max(1, n // 3)
+            t = rng.uniform(-0.01, 0.01, m)
+            on = np.cos(t)[:, None] * mid + np.sin(t)[:, None] * axis  # on the bisecting great circle
+            delta = 10.0 ** rng.uniform(-8.5, -6, m) * rng.choice([-1.0, 1.0], m)
+            pts = on + delta[:, None] * nrm
+            pts /= np.linalg.norm(pts, axis=1)[:, None]
+            bra, bdec = gen.xyz_to_radec(pts)
+            cols["ra"][:m] = (np.rad2deg(bra) if case["degrees"] else bra).astype(cols["ra"].dtype)
+            cols["dec"][:m] = (np.rad2deg(bdec) if case["degrees"] else bdec).astype(cols["dec"].dtype)
         ra_rad = np.deg2rad(cols["ra"].astype("f8")) if case["degrees"] else cols["ra"].astype("f8")
         dec_rad = np.deg2rad(cols["dec"].astype("f8")) if case["degrees"] else cols["dec"].astype("f8")
         xyz = gen.radec_to_xyz(ra_rad, dec_rad)
